@@ -797,3 +797,110 @@ example : WFext0 { version := [83], port := 6881, reqq := 250, ipv4 := some [1,2
 
 
 end Storrent.Props.C06
+
+namespace Storrent.Props.C06
+open Storrent Storrent.Bencode Storrent.Wire Storrent.Props.C04
+
+/-- every message storrent's writer can emit, with the side conditions under which
+    `protocol.Write` produces a frame at all (field widths, frame under the 1 MiB cap);
+    extension sub-ids are storrent's own (ut_pex = 1, ut_metadata = 2, lt_donthave = 3) -/
+def WFemit : Msg → Prop
+  | .ext0 e => WFext0 e ∧ (encDict (ext0Dict e)).length + 2 ≤ 1048576
+  | .pex sub a d => sub = 1 ∧ WFpexList a ∧ WFpexList d ∧ (∀ p ∈ d, p.flags = 0) ∧
+      (encDict (pexDict a d)).length + 2 ≤ 1048576
+  | .metadata sub t p tot data => sub = 2 ∧ t < 256 ∧ U32 p ∧ U32 tot ∧
+      (encDict (metaDict t p tot)).length + data.length + 2 ≤ 1048576
+  | .dontHave sub i => sub = 3 ∧ U32 i
+  | .uploadOnly _ _ | .extUnknown _ | .unknown _ => False
+  | m => WFfixed m
+
+/-- what an emitted message looks like after the round trip: identical, except that the
+    two PEX lists come back with the IPv4 peers first (they travel in separate keys) -/
+def received : Msg → Msg
+  | .pex s a d => .pex s (v4first a) (v4first d)
+  | m => m
+
+/-- **Round trip of every emitted message** (all 20 kinds storrent writes), through the model
+    of protocol.Read (regenerated guard table and cap) with the Lean bencode decoder, with any
+    bytes following: the same message comes back and exactly its frame is consumed. -/
+theorem C06_roundtrip_all (m : Msg) (h : WFemit m) (rest : Bytes) :
+    ∃ bs, encode m = some bs ∧ 4 ≤ bs.length ∧
+      (decode leanBDec (bs ++ rest)).res = .msg (received m) ∧
+      (decode leanBDec (bs ++ rest)).consumed = bs.length := by
+  have len4 : ∀ (id : Nat) (p : Bytes), 4 ≤ (frame id p).length := by
+    intro id p; simp [frame, be32_length] <;> omega
+  cases m
+  case ext0 e =>
+    obtain ⟨bs, hb, h1, h2⟩ := C06_roundtrip_ext0 rest e h.1 h.2
+    refine ⟨bs, hb, ?_, h1, h2⟩
+    have : bs = frame 20 ([0] ++ encDict (ext0Dict e)) := by
+      have : encode (.ext0 e) = some (frame 20 ([0] ++ encDict (ext0Dict e))) := rfl
+      rw [this] at hb; exact (Option.some.inj hb).symm
+    rw [this]; exact len4 _ _
+  case pex sub a d =>
+    obtain ⟨rfl, ha, hd, hd0, hl⟩ := h
+    obtain ⟨bs, hb, h1, h2⟩ := C06_roundtrip_pex rest a d ha hd hd0 hl
+    refine ⟨bs, hb, ?_, h1, h2⟩
+    have : encode (.pex 1 a d) = some (frame 20 ([UInt8.ofNat 1] ++ encDict (pexDict a d))) := rfl
+    rw [this] at hb; rw [← Option.some.inj hb]; exact len4 _ _
+  case metadata sub t p tot data =>
+    obtain ⟨rfl, ht, hp, htot, hl⟩ := h
+    obtain ⟨bs, hb, h1, h2⟩ := C06_roundtrip_metadata rest t p tot data ht hp htot hl
+    refine ⟨bs, hb, ?_, h1, h2⟩
+    have : encode (.metadata 2 t p tot data) =
+        some (frame 20 ([UInt8.ofNat 2] ++ encDict (metaDict t p tot) ++ data)) := rfl
+    rw [this] at hb; rw [← Option.some.inj hb]; exact len4 _ _
+  case dontHave sub i =>
+    obtain ⟨rfl, hi⟩ := h
+    obtain ⟨bs, hb, h1, h2⟩ := C06_roundtrip_donthave leanBDec rest i hi
+    refine ⟨bs, hb, ?_, h1, h2⟩
+    have : encode (.dontHave 3 i) = some (frame 20 ([UInt8.ofNat 3] ++ be32 i)) := rfl
+    rw [this] at hb; rw [← Option.some.inj hb]; exact len4 _ _
+  case uploadOnly => exact absurd h (by simp [WFemit])
+  case extUnknown => exact absurd h (by simp [WFemit])
+  case unknown => exact absurd h (by simp [WFemit])
+  all_goals exact C06_roundtrip_fixed leanBDec _ (by simpa [WFemit] using h) rest
+
+/-- **Streams of arbitrary emitted messages**: the concatenation of the frames of any list of
+    emitted messages (fixed-layout and bencoded ones mixed) decodes, frame by frame, to exactly
+    that list — nothing lost, nothing merged, nothing left over. -/
+theorem C06_stream_all (ms : List Msg) (h : ∀ m ∈ ms, WFemit m)
+    (fuel : Nat) (hf : ms.length ≤ fuel) :
+    ∃ bs, encodeAll ms = some bs ∧
+      decodeAll Gen.wireGuards Gen.frameCap leanBDec fuel bs = ms.map (fun m => .msg (received m)) := by
+  induction ms generalizing fuel with
+  | nil => exact ⟨[], rfl, by cases fuel <;> simp [decodeAll]⟩
+  | cons m ms ih =>
+    obtain ⟨a, ha, hlen, hres, hcons⟩ := C06_roundtrip_all m (h m (by simp))
+      ((encodeAll ms).getD [])
+    cases fuel with
+    | zero => simp at hf
+    | succ fuel =>
+      obtain ⟨b, hb, hdec⟩ := ih (fun x hx => h x (by simp [hx])) fuel (by simp at hf; omega)
+      refine ⟨a ++ b, by simp [encodeAll, ha, hb], ?_⟩
+      simp only [hb, Option.getD_some] at hres hcons
+      have hne : (a ++ b).isEmpty = false := by
+        cases a with
+        | nil => simp at hlen
+        | cons x xs => rfl
+      unfold decodeAll
+      simp only [hne]
+      have hd : decodeWith Gen.wireGuards Gen.frameCap leanBDec (a ++ b) = decode leanBDec (a ++ b) := rfl
+      rw [hd]
+      simp only [hres, hcons, List.drop_left', List.map_cons]
+      simp [hdec]
+
+/-- a truncated stream never yields a message that was not sent: while the last frame is
+    incomplete (fewer than 4 + announced bytes present) the decoder produces no message
+    (consequence of `C04_exact_frame` and `C04_never_beyond`), for every bencode decoder -/
+theorem C06_truncated_no_message (bd : BDec) (bs : Bytes) (h : bs.length < 4 + announced bs) :
+    ∀ m, (decode bd bs).res ≠ .msg m := by
+  intro m hm
+  have h1 := C04_exact_frame bd bs m hm
+  have h2 := (C04_never_beyond bd bs).1
+  omega
+
+example : WFemit (.dontHave 3 7) ∧ WFemit (.request 1 2 3) := by
+  refine ⟨⟨rfl, by unfold U32; omega⟩, by simp [WFemit, WFfixed, U32]⟩
+
+end Storrent.Props.C06
